@@ -7,7 +7,12 @@ Decided:
                      acquire and release), and `region` is combined with `index` before the write
  DELEG.store         store() pairs source i with target i and region i (zip), hands each block its own
                      slice (ArraySliceDep of the source's chunks) and forwards lock/region/return flags
-Not decided: written values; npy stack round trip.
+ EFFECT.store-name   the store-map tasks are named after the identity of the target (and source, region):
+                     equal-content targets must not share keys
+ TAB.npy-stack       to_npy_stack and from_npy_stack agree on the layout: block i <-> <dirname>/<i>.npy with i
+                     the block number along the stacking axis; the info file carries the rechunked chunks,
+                     dtype and axis under the keys the reader uses
+Not decided: written values.
 """
 from __future__ import annotations
 
@@ -18,7 +23,8 @@ from ..lib import *
 EXPLANATION = (
     "Acquire/release pairing over every lock.acquire() site (release in the finally of the immediately "
     "following try, same guard), placement of the target write inside the locked region, composition of "
-    "region and block index before the write, and positional pairing of sources/targets/regions in store().  "
+    "region and block index before the write, positional pairing of sources/targets/regions in store(), and "
+    "writer/reader agreement of the npy-stack layout (file name per block number, info keys).  "
     "The values written are NOT decided."
 )
 ASSUMPTIONS = ["ArraySliceDep(chunks) yields the slice of each block in the source's coordinates"]
@@ -120,6 +126,17 @@ def check(ctx):
         mb = [c for c in calls(loops[0], "map_blocks")]
         ok = len(mb) == 1 and unparse(mb[0].func.value) == "s" and [unparse(a) for a in mb[0].args] == ["load_store_chunk", "t", "slices"] and unparse(kwarg(mb[0], "region")) == "r" and unparse(kwarg(mb[0], "lock")) == "lock" and unparse(kwarg(mb[0], "return_stored")) == "return_stored" and unparse(kwarg(mb[0], "load_stored")) == "load_stored"
         ctx.ob("DELEG.store.map-blocks", mb[0] if mb else st, "s.map_blocks(load_store_chunk, t, slices, region=r, lock=lock, return_stored=..., load_stored=...)", ok)
+        # a store is an effect on one particular target object: its tasks must be named after the
+        # target's identity (content tokens deduplicate stores into equal-looking targets)
+        nm = kwarg(mb[0], "name") if mb else None
+        ok = nm is not None
+        detail = "the store-map layer is named from content tokens only: da.store([x, x], [t1, t2]) with equal-content targets writes only one of them"
+        if ok:
+            toks = [c for c in ast.walk(nm) if isinstance(c, ast.Call) and call_name(c) in ("tokenize", "base.tokenize")]
+            args_ = {unparse(a) for c in toks for a in c.args}
+            ok = bool(toks) and "id(t)" in args_ and "s" in args_ and "r" in args_
+            detail = "" if ok else f"name token covers {sorted(args_)}: needs the source, the region and the identity of the target"
+        ctx.ob("EFFECT.store-name", mb[0] if mb else st, "store tasks are named after (source, id(target), region, ...)", ok, "" if ok else detail)
         ok = bool(find("slices = ArraySliceDep(s.chunks)", loops[0]))
         ctx.ob("DELEG.store.slices", loops[0], "each block gets its own slice: ArraySliceDep(s.chunks)", ok)
         # positional parameters of load_store_chunk: x, out, index
@@ -130,6 +147,42 @@ def check(ctx):
     ok = bool(find("lock = get_scheduler_lock(collection=Array, scheduler=kwargs.get('scheduler'))", st)) and any(has_fact(inline_facts(st, n), "lock is True", True) is not None for n, _ in find("lock = M_v", st))
     ctx.ob("DELEG.store.lock-true", st, "lock=True picks the scheduler-appropriate lock", ok)
 
+    # ---------------- npy stack: writer and reader agree on the layout
+    w = mod.func("to_npy_stack")
+    r = mod.func("from_npy_stack")
+
+    def path_of(f, fn):
+        out = []
+        for n in ast.walk(f):
+            if isinstance(n, ast.Tuple) and n.elts and unparse(n.elts[0]) == fn and len(n.elts) >= 2:
+                out.append(n)
+        return out
+    wt, rt = path_of(w, "np.save"), path_of(r, "np.load")
+    ctx.count("npy_stack_tasks", len(wt) + len(rt))
+    ctx.floor("npy_stack_tasks", 2, "(np.save, path, key) in to_npy_stack and (np.load, path, mmap_mode) in from_npy_stack")
+    ok = len(wt) == 1 and len(rt) == 1 and unparse(wt[0].elts[1]) == unparse(rt[0].elts[1]) == "os.path.join(dirname, f'{i}.npy')"
+    ctx.ob("TAB.npy-stack.file-name", r, "block i is written to and read from os.path.join(dirname, f'{i}.npy')", ok, "" if ok else f"writer {unparse(wt[0].elts[1]) if wt else None} vs reader {unparse(rt[0].elts[1]) if rt else None}")
+    # the index i: writer enumerates the blocks of the array rechunked to one block on every other axis,
+    # reader counts the chunks along the stacking axis
+    wc = getattr(wt[0], "_parent", None) if wt else None
+    ok = isinstance(wc, ast.DictComp) and unparse(wc.generators[0].target) == "(i, key)" and unparse(wc.generators[0].iter) == "enumerate(core.flatten(xx.__dask_keys__()))" and unparse(wc.key) == "(name, i)" and unparse(wt[0].elts[2]) == "key"
+    ok = ok and bool(find("xx = x.rechunk(chunks)", w)) and bool(find("chunks = tuple((c if i == axis else (sum(c),) for i, c in enumerate(x.chunks)))", w))
+    ctx.ob("TAB.npy-stack.writer-index", w, "writer: i enumerates the blocks of x rechunked to a single block on every axis but `axis`", ok)
+    rc = getattr(rt[0], "_parent", None) if rt else None
+    ok = isinstance(rc, ast.ListComp) and unparse(rc.generators[0].target) == "i" and unparse(rc.generators[0].iter) == "range(len(chunks[axis]))"
+    ctx.ob("TAB.npy-stack.reader-index", r, "reader: block i for i in range(len(chunks[axis])) (by number, not by directory listing)", ok, "" if ok else "the reader does not address the files by block number: the order of blocks along the stacking axis is not the written one")
+    ok = bool(find("keys = list(product([name], *[range(len(c)) for c in chunks]))", r)) and bool(find("dsk = dict(zip(keys, values))", r)) and any(unparse(x.value) == "Array(dsk, name, chunks, dtype)" for x in returns(r))
+    ctx.ob("TAB.npy-stack.reader-keys", r, "keys in block order zipped with the files; Array(dsk, name, chunks, dtype)", ok)
+    meta = find("meta = M_v", w)
+    wkeys = set(dict_literal_keys(meta[0][1]["M_v"]) or {}) if meta else set()
+    wvals = {k: unparse(v) for k, v in (dict_literal_keys(meta[0][1]["M_v"]) or {}).items()} if meta else {}
+    rkeys = {const(n.slice) for n in ast.walk(r) if isinstance(n, ast.Subscript) and unparse(n.value) == "info"}
+    ok = wkeys == rkeys == {"chunks", "dtype", "axis"} and wvals == {"chunks": "chunks", "dtype": "x.dtype", "axis": "axis"}
+    ok = ok and all(bool(find(f"{k} = info['{k}']", r)) for k in ("chunks", "dtype", "axis"))
+    ctx.ob("TAB.npy-stack.info", w, "info file: writer stores {chunks (rechunked), dtype, axis}; reader uses exactly these", ok, "" if ok else f"writer {wvals} vs reader {sorted(map(str, rkeys))}")
+    ok = bool(find("pickle.dump(meta, f)", w)) and bool(find("info = pickle.load(f)", r)) and "os.path.join(dirname, 'info')" in unparse(w) and "os.path.join(dirname, 'info')" in unparse(r)
+    ctx.ob("TAB.npy-stack.info-file", w, "both sides use <dirname>/info via pickle", ok)
+
 
 VARIANTS = [
     (CORE, "    finally:\n        if lock:\n            lock.release()\n\n\nA = TypeVar", "    finally:\n        pass\n\n\nA = TypeVar", "PAIR.lock"),
@@ -137,6 +190,9 @@ VARIANTS = [
     (CORE, "            index = fuse_slice(region, index)", "            index = fuse_slice(index, region)", "PAIR.region-index"),
     (CORE, "    for s, t, r in zip(sources, targets, regions_list):", "    for s, t, r in zip(sources, reversed(targets), regions_list):", "DELEG.store.zip"),
     (CORE, "                region=r,\n                lock=lock,\n                return_stored=return_stored,", "                lock=lock,\n                return_stored=return_stored,", "DELEG.store.map-blocks"),
+    (CORE, '        for i in range(len(chunks[axis]))\n    ]\n    dsk = dict(zip(keys, values))', '        for i in reversed(range(len(chunks[axis])))\n    ]\n    dsk = dict(zip(keys, values))', "TAB.npy-stack.reader-index"),
+    (CORE, '        (name, i): (np.save, os.path.join(dirname, f"{i}.npy"), key)', '        (name, i): (np.save, os.path.join(dirname, f"{i:02d}.npy"), key)', "TAB.npy-stack.file-name"),
+    (CORE, '    meta = {"chunks": chunks, "dtype": x.dtype, "axis": axis}', '    meta = {"chunks": x.chunks, "dtype": x.dtype, "axis": axis}', "TAB.npy-stack.info"),
     (CORE, "    finally:\n        if lock:\n            lock.release()\n    return c", "    finally:\n        if asarray:\n            lock.release()\n    return c", "PAIR.lock"),
 ]
 
